@@ -385,7 +385,7 @@ FAMILIES.append(
            required_labels=["SCHEMA_ONLY:reject", "DATA_ONLY:reject", "DATA_ONLY:accept"]))
 
 FAMILIES.append(
-    Family("polars_report", plx.eval_c02, strategy=lambda: plx.strat_case(parsers="none", containers=("df", "df", "lf_full")),
+    Family("polars_report", plx.eval_c02, strategy=lambda: plx.strat_case(parsers="none", containers=("df", "df", "lf_full"), nan_rate=2),
            n_quick=700, n_thorough=3000, shards_quick=3, shards_thorough=12,
            required_labels=["container=lf_full", "report-compared", "multi-reason"]))
 
